@@ -446,6 +446,15 @@ pub enum Kind {
         id: u64,
         what: String,
     },
+    /// C17: a request built directly with the client's RequestBuilder (update check + event on
+    /// the same app, which the state machine never sends) answered by the mock
+    MockDirect {
+        apps: Vec<(String, bool)>,
+        doc: Option<Value>,
+        parses: bool,
+        cfg: BTreeMap<String, String>,
+        failure: Option<String>,
+    },
     Note(String),
 }
 
